@@ -27,6 +27,11 @@ def run_one(change, props, tier="quick", keep=False, base=None):
     name = re.sub(r"[^A-Za-z0-9]+", "-", change)[-40:]
     wt = "/tmp/seedtest-%s-%d" % (name, os.getpid())
     tgt = wt + "-target"
+    if SHARED:
+        # the --all-* modes judge one change after the other in ONE scratch worktree path with ONE build directory:
+        # the dependencies are compiled once, only the fclones crate is rebuilt per change
+        wt = "/tmp/seedtest-wt-%d" % os.getpid()
+        tgt = "/tmp/seedtest-target-%d" % os.getpid()
     sh("git -C %s worktree remove --force %s" % (REPO, wt))
     # prefer the current HEAD (the patch is then judged against today's code, with every later repair in);
     # fall back to the commit the patch was written against when it no longer applies
@@ -79,11 +84,19 @@ def run_one(change, props, tier="quick", keep=False, base=None):
     finally:
         if not keep:
             sh("git -C %s worktree remove --force %s" % (REPO, wt))
-            shutil.rmtree(tgt, ignore_errors=True)
-            shutil.rmtree(tgt + "-b1", ignore_errors=True)
-            shutil.rmtree(tgt + "-b2", ignore_errors=True)
+            if not SHARED:
+                drop_target(tgt)
             shutil.rmtree(wt, ignore_errors=True)
     return out
+
+
+SHARED = False
+
+
+def drop_target(tgt):
+    shutil.rmtree(tgt, ignore_errors=True)
+    shutil.rmtree(tgt + "-b1", ignore_errors=True)
+    shutil.rmtree(tgt + "-b2", ignore_errors=True)
 
 
 def main():
@@ -95,6 +108,11 @@ def main():
     if "--keep" in a:
         a.remove("--keep"); keep = True
     results = []
+    global SHARED
+    if a and a[0].startswith("--all-"):
+        SHARED = True
+        import atexit
+        atexit.register(drop_target, "/tmp/seedtest-target-%d" % os.getpid())
     if a and a[0] == "--all-reverts":
         j = json.load(open(os.path.join(V, "known_findings.json")))
         for line in j["fixed"]:
